@@ -132,6 +132,10 @@ macro_rules! ensure_eq {
 pub struct Cx {
     pub labels: Vec<&'static str>,
     pub nontrivial: bool,
+    /// additional evaluations performed inside this case (row / history cases)
+    pub extra_evals: u64,
+    /// additional distinct non-trivial sub-cases inside this case (counted by construction)
+    pub extra_nontrivial: u64,
 }
 
 impl Cx {
@@ -226,7 +230,8 @@ impl Stats {
     }
 
     pub fn record<P: Prop>(&mut self, case: &P::Case, cx: &Cx, verdict: &Verdict) {
-        self.evaluations += 1;
+        self.evaluations += 1 + cx.extra_evals;
+        self.nontrivial_by_construction += cx.extra_nontrivial;
         if let Verdict::Skip(why) = verdict {
             *self.skipped.entry(why).or_default() += 1;
             return;
